@@ -19,7 +19,7 @@ From Coq Require Import FSets.FMapPositive.
 Inductive outcome (A : Type) : Type :=
 | Ok (a : A)
 | Err            (* the Go function returned a non-nil error *)
-| Panic          (* Go run-time panic (integer division by zero) *)
+| Panic          (* Go run-time panic (none is reachable in the repaired code; kept so that this is a theorem) *)
 | OutOfFuel.     (* artefact of the model; theorems show it is unreachable with the fuel given *)
 Arguments Ok {A} a.
 Arguments Err {A}.
@@ -50,7 +50,7 @@ Definition shuffle_apply (esz : N) (data : bytes) : outcome bytes :=
   match data with
   | [] => Ok data
   | _ =>
-    if esz =? 0 then Panic                                   (* dataLen % f.elementSize *)
+    if esz =? 0 then Err                                     (* repaired: zero element size is an error *)
     else if negb (N.of_nat (length data) mod esz =? 0) then Err
     else
       let e := N.to_nat esz in
@@ -66,7 +66,7 @@ Definition shuffle_remove (esz : N) (data : bytes) : outcome bytes :=
   match data with
   | [] => Ok data
   | _ =>
-    if esz =? 0 then Panic
+    if esz =? 0 then Err
     else if negb (N.of_nat (length data) mod esz =? 0) then Err
     else
       let e := N.to_nat esz in
